@@ -424,7 +424,7 @@ func runC08HostCalls(t *testing.T, tape *Tape, o *Outcome) *Outcome {
 			var op hcOp
 			switch object {
 			case 0:
-				op = hcOp{Kind: [...]string{"F", "G", "M", "MV", "Sorted", "Emit"}[tape.Choose(6)], A: tape.Choose(40), B: 1 + tape.Choose(5)}
+				op = hcOp{Kind: [...]string{"F", "G", "M", "MV", "Sorted", "Emit", "Work"}[tape.Choose(7)], A: tape.Choose(40), B: 1 + tape.Choose(5)}
 			case 1:
 				op = hcOp{Kind: "Add", A: 1 + tape.Choose(9)}
 			case 2:
@@ -463,7 +463,7 @@ func runC08HostCalls(t *testing.T, tape *Tape, o *Outcome) *Outcome {
 			if _, evalErr = it.Eval(hostcall.Src); evalErr != nil {
 				return
 			}
-			for _, n := range []string{"F", "G", "MV", "Add", "Put", "Get", "Enq", "Deq", "Sorted", "Emit"} {
+			for _, n := range []string{"F", "G", "MV", "Add", "Put", "Get", "Enq", "Deq", "Sorted", "Emit", "Work"} {
 				v, err := it.Eval("hostcall." + n)
 				if err != nil {
 					evalErr = err
@@ -496,6 +496,8 @@ func runC08HostCalls(t *testing.T, tape *Tape, o *Outcome) *Outcome {
 							out.V = fns["Sorted"].(func(int) int)(op.A)
 						case "Emit":
 							out.V = fns["Emit"].(func(int) int)(op.A)
+						case "Work":
+							out.V = fns["Work"].(func(int) int)(op.A % 9)
 						case "Add":
 							out.V = fns["Add"].(func(int) int)(op.A)
 						case "Put":
@@ -565,6 +567,8 @@ func runC08HostCalls(t *testing.T, tape *Tape, o *Outcome) *Outcome {
 				want = hostcall.Sorted(in.A)
 			case "Emit":
 				want = hostcall.Emit(in.A)
+			case "Work":
+				want = hostcall.Work(in.A % 9)
 			}
 			if out.V != want {
 				wrong = append(wrong, fmt.Sprintf("%s(%d,%d)=%d want %d (caller h%d)", in.Kind, in.A, in.B, out.V, want, op.ClientId))
